@@ -25,6 +25,52 @@ class Deadlock(Exception):
     pass
 
 
+_tl = threading.local()
+_MON_TOOL = 4
+
+
+def _storage_code_objects():
+    """Every code object of jaxtyping/_storage.py (the functions through which all binding / flag state is reached)."""
+    import types
+
+    from jaxtyping import _storage
+
+    out, todo = [], [v.__code__ for v in vars(_storage).values() if isinstance(v, types.FunctionType) and v.__module__ == _storage.__name__]
+    while todo:
+        c = todo.pop()
+        out.append(c)
+        todo += [k for k in c.co_consts if isinstance(k, types.CodeType)]
+    return out
+
+
+def _instruction_event(code, offset):
+    s, tid = getattr(_tl, "sched", None), getattr(_tl, "tid", None)
+    if s is not None and tid is not None and not getattr(_tl, "finished", False):
+        s.point(tid, code.co_name)
+
+
+class instruction_points:
+    """Context manager: while active, every bytecode instruction executed inside jaxtyping/_storage.py by a worker thread is a
+    scheduling point too (sys.monitoring INSTRUCTION events; sys.settrace's opcode events do not fire on CPython 3.12.1)."""
+
+    def __enter__(self):
+        mon = sys.monitoring
+        self.codes = _storage_code_objects()
+        if mon.get_tool(_MON_TOOL) is None:
+            mon.use_tool_id(_MON_TOOL, "vf-sched")
+        mon.register_callback(_MON_TOOL, mon.events.INSTRUCTION, _instruction_event)
+        for c in self.codes:
+            mon.set_local_events(_MON_TOOL, c, mon.events.INSTRUCTION)
+        return self
+
+    def __exit__(self, *a):
+        mon = sys.monitoring
+        for c in self.codes:
+            mon.set_local_events(_MON_TOOL, c, 0)
+        mon.register_callback(_MON_TOOL, mon.events.INSTRUCTION, None)
+        mon.free_tool_id(_MON_TOOL)
+
+
 class Sched:
     def __init__(self, nthreads, segments, quantum):
         self.n = nthreads
@@ -67,7 +113,7 @@ class Sched:
         if t is None or t == tid:
             self.left = k if t == tid else 10 ** 9
             return
-        self.switches.append((tid, frame.f_code.co_name))
+        self.switches.append((tid, frame if isinstance(frame, str) else frame.f_code.co_name))
         self.cur, self.left = t, k
         self.sems[t].release()
         if not self.sems[tid].acquire(timeout=30):
@@ -97,6 +143,7 @@ class Sched:
             if not self.sems[tid].acquire(timeout=30):
                 self.errors.append(f"thread {tid} was never scheduled")
                 return
+            _tl.sched, _tl.tid, _tl.finished = self, tid, False
             sys.settrace(global_trace)
             try:
                 results[tid] = fn()
@@ -106,6 +153,7 @@ class Sched:
                 results[tid] = f"worker raised {type(e).__name__}: {e}"
             finally:
                 sys.settrace(None)
+                _tl.finished = True
                 self.finish(tid)
 
         if self.copy_context:
@@ -118,8 +166,12 @@ class Sched:
         return threading.Thread(target=run, daemon=True)
 
 
-def run_interleaved(fns, segments, quantum, copy_context=False):
-    """Run the callables in worker threads under the given schedule.  -> (results, sched)"""
+def run_interleaved(fns, segments, quantum, copy_context=False, instructions=False):
+    """Run the callables in worker threads under the given schedule.  -> (results, sched)
+    instructions=True: bytecode instructions inside jaxtyping/_storage.py are scheduling points as well."""
+    if instructions:
+        with instruction_points():
+            return run_interleaved(fns, segments, quantum, copy_context)
     s = Sched(len(fns), segments, quantum)
     s.copy_context = copy_context
     results = [None] * len(fns)
